@@ -2,8 +2,10 @@
 EXTENDS Stats
 CONSTANT Tier      \* "quick" | "thorough" | "pinned": TLC evaluates every constant definition at start-up, so only one input set is defined
 
-Sched2 == << <<"t1", TRUE>>, <<"t2", FALSE>> >>      \* t2 is reported only if its error rate is > 0
-NoAP == <<"", "", 0, 0, 0, 0>>
+(* t2 is reported only if its error rate is > 0; the operation of t1 is NAMED like the task t2 (as task search-cold *)
+(* on operation search, followed by a task search): a lookup by task name must not be caught by it               *)
+Sched2 == << <<"t1", TRUE, "t2">>, <<"t2", FALSE, "op-t2">> >>
+NoAP == <<"", "", 0, 0, 0, 0, 0, 0>>
 
 (* bags = non-decreasing sequences of length <= n over 0..k *)
 Bags(n, k) == {s \in UNION {[1..len -> 0..k] : len \in 0..n} : \A i \in 1..(Len(s) - 1) : s[i] <= s[i + 1]}
@@ -37,9 +39,11 @@ BagInit(ms, n, k, warm(_), noise(_)) ==
 
 (* arithmetic progressions: the size is a parameter *)
 APWarm(m) == {<<>>, << <<m, "t1", TRUE, FALSE, 50000, FALSE, 0>>, <<m, "t2", TRUE, TRUE, 7, TRUE, 1>> >>}
-APInit(ms, sizes, a0s, steps) ==
-    \E m \in ms, n \in sizes, a0 \in a0s, st \in steps : \E w \in APWarm(m) :
-        inp = [kind |-> "store", S |-> [recs |-> w, ap |-> <<m, "t1", n, a0, st, IF m = "svc" /\ n > 1 THEN 1 ELSE 0>>]]
+(* tails: set of <<number of outliers, gap>> (heavy tail; <<0, 0>>: none) *)
+APInit(ms, sizes, a0s, steps, tails) ==
+    \E m \in ms, n \in sizes, a0 \in a0s, st \in steps, tl \in tails : \E w \in APWarm(m) :
+        /\ tl[1] <= n
+        /\ inp = [kind |-> "store", S |-> [recs |-> w, ap |-> <<m, "t1", n, a0, st, IF m = "svc" /\ n > 1 THEN 1 ELSE 0, tl[1], tl[2]>>]]
 
 (* result documents: every system metric absent / null / 0 / positive; op_metrics absent / empty / one entry *)
 DocVals == {None, Whole(0), Rat(5, 2)}
@@ -58,14 +62,16 @@ AllM == {"tp", "lat", "svc", "proc"}
 MCInit ==
     /\ \/ /\ Tier = "quick"
           /\ \/ BagInit(AllM, 4, 2, WarmFew, NoiseFew)
-             \/ APInit(AllM, {1, 2, 9, 10, 99, 100}, {1}, {0, 2})
-             \/ APInit({"lat", "svc"}, {999, 1000}, {1}, {3})
-             \/ APInit({"lat"}, {9999, 10000}, {0}, {1})
+             \/ APInit(AllM, {1, 2, 9, 10, 99, 100}, {1}, {0, 2}, {<<0, 0>>})
+             \/ APInit(AllM, {10, 100}, {1}, {2}, {<<3, 1000>>})
+             \/ APInit({"lat", "svc"}, {999, 1000, 1998}, {1}, {3}, {<<0, 0>>, <<3, 10000>>})
+             \/ APInit({"lat"}, {9999, 10000}, {0}, {1}, {<<0, 0>>, <<3, 10000>>})
              \/ inp \in DocInputs
        \/ /\ Tier = "thorough"
           /\ \/ BagInit(AllM, 5, 3, WarmAll, NoiseAll)
-             \/ APInit(AllM, {1, 2, 9, 10, 11, 99, 100, 101, 999, 1000}, {0, 2}, {0, 1, 3})
-             \/ APInit({"lat", "svc", "tp"}, {9999, 10000, 10001}, {0, 5}, {0, 1, 3})
+             \/ APInit(AllM, {1, 2, 9, 10, 11, 99, 100, 101, 999, 1000}, {0, 2}, {0, 1, 3}, {<<0, 0>>, <<2, 500>>})
+             \/ APInit({"lat", "svc", "tp"}, {9999, 10000, 10001}, {0, 5}, {0, 1, 3}, {<<0, 0>>})
+             \/ APInit({"lat", "svc"}, {1001, 1998, 2001, 10000, 10002}, {0}, {1}, {<<3, 10000>>, <<20, 700>>})
              \/ inp \in DocInputs
        \/ /\ Tier = "pinned"      \* self-test input: enough to show that the pinned summary_stats violates the property
           /\ BagInit({"tp"}, 3, 2, WarmFew, NoiseFew)
